@@ -149,8 +149,14 @@ SpecialDoc(i) ==
        [] i = 1 -> base(<<>>, <<Cond1(N, 2)>>, TRUE)
        [] i = 2 -> base(plainrels, <<emptyc, Cond1(N, 1)>>, FALSE)
        [] i = 3 -> base(plainrels, <<AllTypesCond, emptyc>>, TRUE)
+       [] i \in 164..167 ->      \* a module file that extends a type and declares a type of that name as well (either order; with another type between)
+            LET ext == [name |-> "doc", ext |-> TRUE, rels |-> << rel("a", [k |-> "this"], <<Ty("user")>>) >>]
+                decl == [name |-> "doc", ext |-> FALSE, rels |-> << rel("b", [k |-> "cu", rel |-> "a"], <<>>), rel("p", [k |-> "this"], <<Ty("doc")>>) >>]
+                usr == [name |-> "user", ext |-> FALSE, rels |-> <<>>]
+            IN [header |-> "module", schema |-> "", module |-> "m",
+                types |-> CASE i = 164 -> <<usr, ext, decl>> [] i = 165 -> <<usr, decl, ext>> [] i = 166 -> <<ext, usr, decl>> [] OTHER -> <<decl, usr, ext>>, conds |-> <<>>]
        [] OTHER -> wide(i - 4)
-NumSpecial == 4 + 160
+NumSpecial == 4 + 160 + 4
 
 (***************************************************************************)
 (* C09: the catalogue of structural violations, D -> D' at a site          *)
